@@ -1118,6 +1118,22 @@ def _old(eng, e, st, fr, k):
     return eng.ev(e.args[0], st, fr, done)
 
 
+def _was(eng, e, st, fr, k):
+    """was(obj, 'attr'): the value attribute `attr` of the (current) object `obj` had when the function was entered"""
+    attr = e.args[1].value
+    def got(s, o):
+        oheap, oenv, oalloc = s.old
+        cur_heap, cur_alloc = s.heap, s.alloc
+        s.heap = oheap.copy()
+        s.alloc = oalloc
+        def done(s2, v):
+            s2.heap = cur_heap
+            s2.alloc = cur_alloc
+            return k(s2, v)
+        return eng.get_attr(o, attr, s, fr, done)
+    return eng.ev(e.args[0], st, fr, got)
+
+
 def _fresh(eng, e, st, fr, k):
     """fresh(x): x was allocated during this call (its id is >= the allocation pointer at entry)."""
     def got(s, v):
@@ -1147,8 +1163,16 @@ def _unchanged(eng, e, st, fr, k):
     a = e.args[0]
     if isinstance(a, ast.Constant):
         keys = eng.heap_keys_of(a.value)
-        oheap = st.old[0]
-        return k(st, SBool(z3.And([st.heap.get(kk) == oheap.get(kk) for kk in keys])))
+        oheap, _oenv, oalloc = st.old
+        parts = []
+        r = fresh("r_unch", IntS)
+        for kk in keys:
+            cur, old = st.heap.get(kk), oheap.get(kk)
+            if cur.eq(old):
+                continue
+            # the component is unchanged on every object that existed at entry (fresh objects do not count)
+            parts.append(z3.ForAll([r], z3.Implies(z3.And(r > 0, r < oalloc), z3.Select(cur, r) == z3.Select(old, r))))
+        return k(st, SBool(z3.And(parts) if parts else z3.BoolVal(True)))
     new = ast.Compare(left=a, ops=[ast.Eq()], comparators=[ast.Call(func=ast.Name(id="old", ctx=ast.Load()), args=[a], keywords=[])])
     return eng.ev(new, st, fr, k)
 
@@ -1192,6 +1216,19 @@ def _ghost(eng, e, st, fr, k):
     if len(e.args) == 1:
         return k(st, SInt(st.heap.get(("g", name, "int"))))
     return eng.ev(e.args[1], st, fr, lambda s, i: k(s, SInt(z3.Select(s.heap.get(("g", name, "arr")), i.t))))
+
+
+_GHOST_FNS = {}
+
+
+def _ghostfn(eng, e, st, fr, k):
+    """ghostfn('name', x): an uninterpreted int -> int function.  Used in a `requires` it states that SOME such
+    function exists (e.g. an owner map witnessing that objects are pairwise distinct); the symbol is otherwise free."""
+    name = e.args[0].value
+    f = _GHOST_FNS.get(name)
+    if f is None:
+        f = _GHOST_FNS[name] = z3.Function("ghostfn_" + name, IntS, IntS)
+    return eng.ev(e.args[1], st, fr, lambda s, v: k(s, SInt(f(v.t))))
 
 
 def _ghost_str(eng, e, st, fr, k):
@@ -1278,7 +1315,7 @@ def _modconst(eng, e, st, fr, k):
     return k(st, eng.const_value(node, mod, st, fr))
 
 
-SPECIAL_FORMS = {"ghost_str": _ghost_str, "ghost": _ghost, "ref_id": _ref_id, "same_class": _same_class, "existed": _existed, "content_unchanged": _content_unchanged, "modconst": _modconst, "nlines": _nlines, "joined": _joined, "truthy": _truthy, "isint": _isint, "isnone": _isnone,
+SPECIAL_FORMS = {"was": _was, "ghostfn": _ghostfn, "ghost_str": _ghost_str, "ghost": _ghost, "ref_id": _ref_id, "same_class": _same_class, "existed": _existed, "content_unchanged": _content_unchanged, "modconst": _modconst, "nlines": _nlines, "joined": _joined, "truthy": _truthy, "isint": _isint, "isnone": _isnone,
                  "dict_key_at": _dict_key_at, "str_of": _str_of, "forall": _quant("forall"), "exists": _quant("exists"), "implies": _implies, "old": _old,
                  "fresh": _fresh, "allocated": _allocated, "unchanged": _unchanged, "isstr": _isstr,
                  "sval": _sval, "ival": _ival, "cls_is": _cls_is, "same": _same_obj, "as_ref": _as_ref}
